@@ -64,6 +64,30 @@ def loop_end(a):
     return None if r is None else r
 
 
+def tileset_lookup_by_id(ctx, rule):
+    fx = ctx.fx
+    # .. and `get(id)` is the lookup by the tileset's own id, whatever order the tileset chunks came in (seed C08-o kept the tilesets in a
+    # Vec in file order and looked them up by position: sparse or unordered ids got the wrong tileset)
+    gb = ctx.anchor(TS + 'TilesetsById::get')
+    ab_ = fx.body(TS + 'TilesetsById::add')
+    if gb is not None:
+        gt = res(gb).ret()
+        key_ = gt[2][1] if gt[0] == 'call' and gt[1] == 'std::collections::HashMap::get' and len(gt[2]) == 2 else None
+        okg_ = key_ is not None and is_param_path(gt[2][0], 1, ['0']) and [x[:2] for x in walk(key_) if x[0] == 'param'] == [('param', 2)] and \
+            (is_param(strip_casts(key_), 2) or (key_[0] == 'call' and key_[1].endswith('TilesetId::from_raw')) or key_[0] == 'agg')
+        oki_ = False
+        if ab_ is not None:
+            for c_ in q.calls(ab_, 'std::collections::HashMap::insert'):
+                a_ = q.arg_terms(c_)
+                k_ = strip_casts(a_[1])
+                if k_[0] == 'call' and k_[1].endswith('TilesetId::from_raw') and len(k_[2]) == 1:
+                    k_ = strip_casts(k_[2][0])
+                # the same key construction on both sides (raw id, or TilesetId::from_raw of it)
+                oki_ = is_param_path(k_, 2, ['id']) and is_param(a_[2], 2)
+        ctx.inst(rule, 'TilesetsById::get', okg_ and oki_, 'get(id) = %s, add(t) stores under %s; must be a map lookup of the id among tilesets stored under their own id'
+                 % (show(gt)[:80], 't.id' if oki_ else 'SOMETHING ELSE'), gb.span, key=gb.name + '|%s|by-id' % rule)
+
+
 def lookup(ctx):
     fx = ctx.fx
     b = ctx.anchor(TM + 'Tilemap::tile')
@@ -177,26 +201,7 @@ def logical_size(ctx):
             ok = ok and same
         ctx.inst('Q2', 'AsepriteFile::tilemap#size', ok, 'logical size = (%s); must be (ceil(width / tile width), ceil(height / tile height)) of the handle\'s tileset'
                  % ', '.join(d), st.get('span'), key=b.name + '|Q2|size')
-        # .. and `get(id)` is the lookup by the tileset's own id, whatever order the tileset chunks came in (seed C08-o kept the tilesets in a
-        # Vec in file order and looked them up by position: sparse or unordered ids got the wrong tileset)
-        gb = ctx.anchor(TS + 'TilesetsById::get')
-        ab_ = fx.body(TS + 'TilesetsById::add')
-        if gb is not None:
-            gt = res(gb).ret()
-            key_ = gt[2][1] if gt[0] == 'call' and gt[1] == 'std::collections::HashMap::get' and len(gt[2]) == 2 else None
-            okg_ = key_ is not None and is_param_path(gt[2][0], 1, ['0']) and [x[:2] for x in walk(key_) if x[0] == 'param'] == [('param', 2)] and \
-                (is_param(strip_casts(key_), 2) or (key_[0] == 'call' and key_[1].endswith('TilesetId::from_raw')) or key_[0] == 'agg')
-            oki_ = False
-            if ab_ is not None:
-                for c_ in q.calls(ab_, 'std::collections::HashMap::insert'):
-                    a_ = q.arg_terms(c_)
-                    k_ = strip_casts(a_[1])
-                    if k_[0] == 'call' and k_[1].endswith('TilesetId::from_raw') and len(k_[2]) == 1:
-                        k_ = strip_casts(k_[2][0])
-                    # the same key construction on both sides (raw id, or TilesetId::from_raw of it)
-                    oki_ = is_param_path(k_, 2, ['id']) and is_param(a_[2], 2)
-            ctx.inst('Q2', 'TilesetsById::get', okg_ and oki_, 'get(id) = %s, add(t) stores under %s; must be a map lookup of the id among tilesets stored under their own id'
-                     % (show(gt)[:80], 't.id' if oki_ else 'SOMETHING ELSE'), gb.span, key=gb.name + '|Q2|by-id')
+        tileset_lookup_by_id(ctx, 'Q2')
         tsv = f.get('tileset', ('unknown',))
         okt = tsv[0] == 'call' and tsv[1] == TS + 'TilesetsById::get' and any(
             x[0] == 'call' and x[1] == 'asefile::layer::Layer::layer_type' and x[2][0][0] == 'call' and x[2][0][1] == AF + 'layer' and
@@ -476,6 +481,9 @@ def run(ctx):
     import totality as _T
     import C01 as _c01
     _common.rejection_inventory(ctx, 'Q1')
+    import invariants as _inv7
+    ok7_, why7_ = _inv7.Inv(ctx).get('I7')        # a tileset that loads has pixels to show (seed C08-s let link-only tilesets through)
+    ctx.inst('Q6', 'tilesets have pixels', ok7_, why7_, None, key='asefile::tileset::TilesetsById::validate|Q6|I7')
     # a sprite with tilesets must load with them: the user data chunks Aseprite writes after a tileset chunk (for the tileset and its
     # tiles) go through the attachment state machine, which must not run into its "dangling user data" refusal (seed C08-p reset the
     # context after the sprite's own record) - C10's rules on that machine, under this property's rule Q6
